@@ -37,6 +37,14 @@ var contents = map[string][]byte{
 	"samesh": []byte("same shard as k1?"),
 }
 
+// altContentOf is a second, shorter content a key may be re-put with (a store is not told that keys
+// are content addresses); isContentOf: b is one of the complete contents ever committed for k.
+func altContentOf(k string) []byte { return []byte("v2/" + k) }
+
+func isContentOf(k string, b []byte) bool {
+	return bytes.Equal(b, contentOf(k)) || bytes.Equal(b, altContentOf(k))
+}
+
 func contentOf(k string) []byte {
 	if c, ok := contents[k]; ok {
 		return c
@@ -242,7 +250,7 @@ func audit(w *world, mustHave map[string]bool, tag string) (fs []core.Finding) {
 		has, herr := s.Has(ctx, k)
 		got, gerr := s.Get(ctx, k)
 		switch {
-		case gerr == nil && !bytes.Equal(got, want):
+		case gerr == nil && !isContentOf(k, got):
 			cause := "partial-visible"
 			if len(got) > 0 && !bytes.HasPrefix(want, got) {
 				cause = "mixed-content"
@@ -265,7 +273,7 @@ func audit(w *world, mustHave map[string]bool, tag string) (fs []core.Finding) {
 		b, _ := os.ReadFile(p)
 		ok := false
 		for _, k := range allKeys {
-			if bytes.Equal(b, contentOf(k)) {
+			if isContentOf(k, b) {
 				ok = true
 			}
 		}
